@@ -9,6 +9,31 @@ _PENDING = "no registered check yet at this commit (model and correspondence und
 NOT_APPLICABLE = {f"C{i:02d}": _PENDING for i in range(1, 21)}
 
 META = {
+    "C02": {
+        "text": ("The documented meaning of the whole query family is a Lean function (`Query.eval`, structural recursion); theorems: "
+                 "the answer set is exact and duplicate free, Total is its size, and the algebraic identities behind every "
+                 "searcher-construction shortcut (single-clause conjunction/disjunction, match-none clauses, min 0 = 1, boolean with "
+                 "only must / only should / only must-not / only filter / nothing, optional should beside must, must-not always "
+                 "excludes, filter always restricts) hold for every corpus and sub-query. The real search (both engines; score "
+                 "default, score none, locations+explain) is compared with `eval` on random corpora and query trees on every run."),
+        "design_ref": "DESIGN.md section 4, C02",
+        "note": ("trusted: Lean kernel, Go harness incl. its small oracles for wildcard/regexp/fuzzy acceptance over the vocabulary, the "
+                 "'simple' analyzer, zapx/vellum/roaring. The operational searcher state machines are not yet modelled in Lean: "
+                 "soundness/completeness of the real searchers is established by the correspondence, not by a refinement proof."),
+        "technique": "Lean 4 executable specification + theorems on it; I/O-equality correspondence of hit sets with the real search",
+    },
+    "C08": {
+        "text": ("The searcher contract is a Lean function over the ascending list of matching ids; theorems for every ascending list "
+                 "and every finite program of Next / Advance calls: each answer is a match, Advance returns the first match >= target "
+                 "and skips only smaller ones, a 'no more' answer means no match >= target existed, the answers are strictly ascending "
+                 "and a sublist of the Next-only enumeration. The searchers built by random query trees on multi-segment indexes with "
+                 "deletions (both engines, three option settings) are driven by random forward programs and compared with the contract "
+                 "evaluated on the Lean denotation of the query on every run."),
+        "design_ref": "DESIGN.md section 4, C08",
+        "note": ("trusted: Lean kernel, Go harness, zapx posting iterators. Compositional Lawful-closure proofs for the compound searcher "
+                 "state machines are not yet in Lean; the contract is checked against the real compound searchers by correspondence."),
+        "technique": "Lean 4 contract + theorems; I/O-equality correspondence on Next/Advance programs over real searcher trees",
+    },
     "C09": {
         "text": ("Lean theorems for every sort specification, every partition into any number of shards (empty ones included), every "
                  "size and offset: the first k of the concatenated per-shard first-k lists are the first k of all documents "
